@@ -390,6 +390,7 @@ jm::Node cps_to_units(const jm::Node &n, int width) {
 template <typename Char_T>
 void run_width(const Case &c, pbt::Ctx &ctx) {
     jm::look_alike_cps() = (c.alias != 0);
+    jm::hash_twin_keys() = (c.alias == 2);
     jm::Entropy      e(c.bytes);
     Flags            fl;
     Builder<Char_T>  b(e, fl);
